@@ -87,6 +87,47 @@ def tick_program(rng):
     return {'start': start, 'roots': roots}
 
 
+def res_program(rng):
+    """holders of one supply that are torn down together (failing / interrupted / cancelled scope) while the same
+    supply is changed, borrowed from and probed in the same time step; world: one supply of 3"""
+    def holder():
+        body = [rng.choice([{'op': 'instant'}, {'op': 'sleep', 'd': 1}, {'op': 'await_f', 'f': 2, 'v': True},
+                            {'op': 'levels', 'p': 1}]) for _ in range(rng.randint(1, 2))]
+        return [{'op': rng.choice(['borrow', 'borrow', 'claim']), 'p': 1, 'amt': rng.choice([0, 1, 1, 2])}] + body + [{'op': 'leave'}]
+
+    def filler(n):
+        out = []
+        for _ in range(n):
+            r = rng.random()
+            if r < 0.3:
+                out.append({'op': 'instant'})
+            elif r < 0.45:
+                out.append({'op': rng.choice(['inc', 'dec']), 'p': 1, 'amt': rng.choice([1, 2])})
+            elif r < 0.6:
+                out.append({'op': 'levels', 'p': 1})
+            elif r < 0.7:
+                out.append({'op': 'fset', 'f': 1, 'v': True})
+            elif r < 0.8:
+                out.append({'op': 'cancel', 'k': -rng.randint(1, 3)})
+            elif r < 0.9:
+                out += [{'op': 'claim', 'p': 1, 'amt': rng.choice([1, 2, 3])}, {'op': 'levels', 'p': 1}, {'op': 'leave'}]
+            else:
+                out.append({'op': 'sleep', 'd': 1})
+        return out
+    kind = rng.choice(['scope', 'scope', 'until_d', 'until_f'])
+    o = {'op': 'open', 'kind': kind, 'catch': True}
+    if kind == 'until_d':
+        o['d'] = 1
+    if kind == 'until_f':
+        o['f'] = 1
+    kids = [{'op': 'do', 's': -1, 'vol': rng.random() < 0.3, 'd': 0, 'fin': 'none', 'prog': holder()}
+            for _ in range(rng.randint(2, 3))]
+    end = rng.choice([[{'op': 'raise', 'cls': 'Key'}], [{'op': 'raise', 'cls': 'Key'}], [], [{'op': 'sleep', 'd': 1}]])
+    root = [o] + kids + filler(rng.randint(1, 3)) + end + [{'op': 'leave'}] + filler(rng.randint(0, 2))
+    other = filler(rng.randint(1, 4))
+    return {'start': 0, 'roots': [root, other]}
+
+
 TIME_FIELDS = ('t', 'due', 'at', 'v')
 
 
